@@ -93,6 +93,15 @@ func genC05(r *simrt.Rand, tier string) any {
 // returns the row ids of every entry that is completely in a file and whose
 // checksum matches.
 func durableWALRids(walDir string) map[int64]bool {
+	out, _ := durableWALRids2(walDir)
+	return out
+}
+
+// durableWALRids2 also counts entries that are completely framed in a file
+// but fail their checksum: with a healthy disk that means the writer
+// persisted something else than what it acknowledged.
+func durableWALRids2(walDir string) (map[int64]bool, int) {
+	corrupt := 0
 	out := map[int64]bool{}
 	files, _ := filepath.Glob(filepath.Join(walDir, "*.wal"))
 	sort.Strings(files)
@@ -111,12 +120,13 @@ func durableWALRids(walDir string) map[int64]bool {
 			payload := b[off+16 : off+16+n]
 			off += 16 + n
 			if crc32.ChecksumIEEE(payload) != crc {
+				corrupt++
 				continue
 			}
 			collectRids(payload, out)
 		}
 	}
-	return out
+	return out, corrupt
 }
 
 func collectRids(payload []byte, out map[int64]bool) {
@@ -206,15 +216,16 @@ func (n *node) parquetRids() map[int64]bool {
 }
 
 type c05exec struct {
-	stored   []storedRow
-	opsSteps int64 // node steps consumed by boot+ops (twin measurement)
-	opsFS    int64
-	expect   map[int64]bool // rids durable at the first crash
-	acks     []*ackRec
-	res      simrt.Result
-	readErr  error
-	crashes  int
-	lostAt2  []int64 // rids durable at crash1 but in neither WAL nor parquet at a later crash
+	stored        []storedRow
+	opsSteps      int64 // node steps consumed by boot+ops (twin measurement)
+	opsFS         int64
+	expect        map[int64]bool // rids durable at the first crash
+	acks          []*ackRec
+	res           simrt.Result
+	readErr       error
+	crashes       int
+	lostAt2       []int64 // rids durable at crash1 but in neither WAL nor parquet at a later crash
+	corruptAtRest int     // completely framed WAL entries with a bad checksum at the first crash
 }
 
 func armCrash(n *node, cs CrashSpec, baseSteps, baseFS int64, lenSteps, lenFS int64) {
@@ -294,7 +305,7 @@ func execC05(p *C05Plan, cfg simrt.Config, root string, crash bool, twin *c05exe
 			simrt.Crash(n.sn)
 		}
 		ex.crashes++
-		ex.expect = durableWALRids(n.walDir)
+		ex.expect, ex.corruptAtRest = durableWALRids2(n.walDir)
 		for id := range n.parquetRids() {
 			ex.expect[id] = true
 		}
@@ -385,6 +396,9 @@ func runC05(planAny any, cfg simrt.Config) *simkit.Outcome {
 	if ex.readErr != nil {
 		out.Violate("C05.unreadable-file", "stored parquet not readable after recovery: %v", ex.readErr)
 		return out
+	}
+	if ex.corruptAtRest > 0 {
+		out.Violate("C05.acked-entry-corrupt-in-wal", "%d WAL entries are completely framed in the file at the crash instant but fail their checksum (no disk fault was injected into their bytes): the writer persisted something else than the acknowledged payload, so the rows cannot be recovered", ex.corruptAtRest)
 	}
 	// twin rows by rid
 	type trow struct {
